@@ -156,6 +156,10 @@ def run_case(spec):
         if not app.close_calls:
             do_close(app)
     end = sch.drain(300.0, 12000, until=lambda: all(a.closed for a in apps))
+    if end == "steps":
+        # the step cap, not the virtual-time bound, ended the drain: no verdict on this case
+        world.finish()
+        return {"inconclusive": "step cap reached in the final drain", "violations": []}
     # one more batch so late events (if any) show up
     sch.drain(5.0, 300)
     # ... and whatever the application asks for after the closed notification must fail, not deliver
